@@ -104,7 +104,7 @@ class PickDomain(ereduce.ReduceDomain):
         class Once:
             pass
         orig = it.recv
-        it.recv = lambda e_, env_: recv
+        it.recv = lambda e_, env_: recv if e_ is e else orig(e_, env_)
         try:
             return super().method(it, m, e, env)
         finally:
